@@ -5,7 +5,7 @@ import json
 from check import Result
 
 PROP = "C13"
-TARGETS = ["NetqasmVerif.Props.C13"]
+TARGETS = ["NetqasmVerif.Props.C13", "NetqasmVerif.Props.C13Controller"]
 M = "NetqasmVerif.Props.C13"
 THEOREMS = [(M, "NQ.C13." + n) for n in [
     "inv_init", "inv_step", "reachable", "reachable_from_init", "no_sharing", "used_exact", "no_usedKey",
@@ -13,7 +13,9 @@ THEOREMS = [(M, "NQ.C13." + n) for n in [
     "double_init_rejected", "alloc_fresh",
     "inv_tick", "tick_subs_app", "tick_isolation", "schedule_isolation", "inv_istep", "reachable_interleaved",
     "isolation_interleaved", "abort_state", "inv_abort", "inv_abortMid", "qfree_atomic", "reachable_with_aborts",
-    "executors_independent", "inv_mapply"]]
+    "executors_independent", "inv_mapply"]] + [("NetqasmVerif.Props.C13Controller", "NQ.C13." + n) for n in [
+    "inv_controller_action", "reachable_controller", "reachable_controller_from_init", "controller_raise_stops",
+    "controller_consume_isolation"]]
 TRANSLATORS = []
 LEVEL_TEXT = ("Lean theorems about the multi-application layer of Model/Exec.lean: the invariant (injective map "
               "(app, virtual) -> physical across all applications; used = mapped + held by the link layer; held "
@@ -25,6 +27,9 @@ LEVEL_TEXT = ("Lean theorems about the multi-application layer of Model/Exec.lea
               "resumed in any order, one instruction at a time (reachable_interleaved, schedule_isolation); "
               "aborts of suspended subroutines preserve it (inv_abort, inv_abortMid, qfree_atomic); executors are "
               "independent (executors_independent); "
+              "the same over histories of the composed controller model (Model/Controller.lean: entanglement deliveries "
+              "through the pending-response list, responses parked ahead of handleable ones, polls) — "
+              "reachable_controller, controller_consume_isolation; "
               "isolation (an operation of application a leaves every b != a unchanged); stop releases all qubits "
               "and memory and the same id can be registered again; rejected registrations change nothing. "
               "Tie: differential correspondence of random/exhaustive histories (direct calls and QNodeController "
@@ -47,6 +52,9 @@ ASSUMPTIONS = [
     "are compared with the model only up to the violating response",
     "SharedMemoryManager keys of this node are created/removed only by this executor",
     "one executor per node name",
+    "pending-list histories: the physical qubit of a keep response is taken from this executor's pool "
+    "(_get_unused_physical_qubit) when the link layer delivers; subroutines of one application are switched "
+    "only at the executor's own yield points (as in the C12 stream)",
 ]
 
 
@@ -103,7 +111,10 @@ def run(ctx):
                 "different applications in flight, resumed one instruction at a time in random order (and all "
                 "35 interleavings of two fixed subroutines), life-cycle operations in between; crash/abort histories "
                 "(a suspended subroutine dropped between instructions or at the yield inside qfree's reset hook, "
-                "the hook raising once, then stop/re-register/allocate all); 2-3 executors in one process; non-trivial = at least one qubit was "
+                "the hook raising once, then stop/re-register/allocate all); 2-3 executors in one process; histories with "
+                "entanglement deliveries through the pending-response list (request/response scenarios of the C12 "
+                "stream with random schedules over {instruction, deliver, poll}, the link layer reserving each kept "
+                "qubit; directed: a response parked ahead of handleable ones, a request whose subroutine ended); non-trivial = at least one qubit was "
                 "mapped at some point; distinct by history JSON")
     rng = ctx.rng
     drv = ctx.driver
@@ -231,6 +242,53 @@ def run(ctx):
     n_par = 6000 if ctx.thorough else 300
     for k in range(n_par):
         check(H.par_scenario(rng, rng.choice([10, 20, 40])), "interleaved")
+        if len(res.failures) >= 5:
+            return res
+
+    # entanglement deliveries through the executor's pending-response list (`_handle_epr_response` /
+    # `_handle_pending_epr_responses`): responses parked ahead of handleable ones, frees, polls; requests
+    # whose subroutine has ended; tied to the composed controller model, C13 statement evaluated model-free
+    from harness import exec_epr as P
+    from harness import epr as E
+    E.quiet()
+
+    def check_pending(sc, toks, tag):
+        rp, dc = P.run_case(sc, toks, drv)
+        res.evaluations += 1
+        res.count("mode:pending-list")
+        for st in rp.steps:
+            res.count("ptok:" + st["tok"][0] + (":raised" if "raised" in st else ""))
+        if any(u for u in rp.ex._qubit_unit_modules.values() if any(p is not None for p in u)) or rp.delivered:
+            res.nontrivial.add(json.dumps([sc.desc(), toks], sort_keys=True, default=str))
+        if dc is not None and len(res.disagreements) < 40:
+            res.disagreements.append({"stream": "ctl." + tag, "input": {"scenario": sc.desc(), "schedule": toks},
+                                      "model": json.loads(json.dumps(dc.get("model", dc), default=str)),
+                                      "code": json.loads(json.dumps(dc.get("code", dc), default=str)),
+                                      "where": str(dc.get("what", dc.get("tok")))})
+        if rp.c13:
+            v = rp.c13[0]
+            desc = json.loads(json.dumps(sc.desc(), default=str))
+            small = P.shrink_schedule(desc, [list(t) for t in toks], v["what"])
+            rp2 = P.PoolReplayer(E.Scenario.from_desc(json.loads(json.dumps(desc))), E.new_executor())
+            for t in small:
+                rp2.step(tuple(t))
+                if rp2.stopped:
+                    break
+            v2 = ([x for x in rp2.c13 if x["what"] == v["what"]] or [v])[0]
+            res.failures.append({"what": v["what"], "kf": None, "input": {
+                "scenario": desc, "programs": [sp.text().split("\n")[2:] for sp in sc.subs], "schedule": small,
+                "detail": json.loads(json.dumps(v2, default=str))}})
+
+    for number in (2, 3):
+        for blocked in ("norecv", "busy"):
+            check_pending(*P.blocked_head_scenario(number, blocked), tag="pending-corpus")
+    for pairs, vq, early in [(p_, v_, False) for p_ in (1, 2) for v_ in (0, 1, 2)] + [(1, 1, True), (2, 2, True)]:
+        check_pending(*P.stale_request_scenario(pairs, vq, early), tag="pending-corpus")
+    n_pend = 2500 if ctx.thorough else 220
+    for k in range(n_pend):
+        sc = E.gen_scenario(rng, mixed_roles=(k % 3 == 0))
+        toks = E.random_schedule(sc, rng, early=rng.choice([0, 0, 1, 2]))
+        check_pending(sc, toks, "pending-random")
         if len(res.failures) >= 5:
             return res
 
